@@ -8,7 +8,8 @@ PROOF_MODULES = ["GrpcProofs.Properties.C24"]
 THEOREMS = ["GrpcProofs.C24." + t for t in (
     "toRPCErr_is_status_or_nil_or_eof", "toRPCErr_nil_iff", "toRPCErr_eof_iff", "toRPCErr_idempotent",
     "restricted_table", "restricted_source_pinned", "restricted_becomes_internal", "status_kept", "filters_yield_status",
-    "picker_error_outcome", "config_selector_eof_counterexample", "config_selector_error_is_status_partial",
+    "picker_error_outcome", "config_selector_error_is_status",
+    "retry_exhausted_sendmsg_counterexample", "retry_exhausted_keeps_status_partial",
     "creds_error_is_status")]
 DESIGN_REF = "DESIGN.md section 8, C24"
 TECHNIQUE = ("Lean 4: structural induction over an inductive model of Go error values for toRPCErr; the A54 table by decide over all 17 "
@@ -20,10 +21,12 @@ LEVEL_TEXT = ("Machine-checked proof that the model of toRPCErr maps every error
               "and %w wrappers) to nil, io.EOF or an error on which status.FromError succeeds — nil/EOF exactly for nil/EOF inputs; that "
               "the three gRFC A54 filters (picker, config selector, per-RPC credentials at both sites) turn every status error with one of "
               "the seven data-plane codes into INTERNAL and leave every other status untouched, for all code values; and what each site "
-              "does with non-status errors. A kernel-checked counterexample shows the config-selector site returning io.EOF unchanged.")
+              "does with non-status errors; in particular every config-selector error, io.EOF included (fix 2bdf416, finding F24), "
+              "surfaces as a status. A kernel-checked counterexample documents F31: the retry-exhausted error of SendMsg is a plain "
+              "error wrapping io.EOF.")
 LEVEL_NOTE = ("Reading: 'carries a gRPC status code' = status.FromError succeeds on the returned error (errors.As semantics). Invoke and "
-              "NewStream have no io.EOF exemption in the statement, so a config selector returning io.EOF (which toRPCErr passes through) "
-              "is reported as a finding. An error whose status has code OK, or a code above 16, still 'carries a status' and is not judged. "
+              "NewStream have no io.EOF exemption in the statement (a config selector returning io.EOF used to leak it: F24, fixed by "
+              "2bdf416). An error whose status has code OK, or a code above 16, still 'carries a status' and is not judged. "
               "public_api_errors_are_status over the full retry state machine (DESIGN) is not attempted: the return paths of "
               "Invoke/NewStream/SendMsg/RecvMsg are covered by the e2e run only. Trusted: Lean kernel, the GoErr abstraction of Go error "
               "values (identity of sentinels, single-chain Unwrap), synctest.")
@@ -33,7 +36,7 @@ RULE = ("rpcerr: every terminal (nil, io.EOF, ErrUnexpectedEOF, ctx errors, ErrN
         "implementors with codes 0..20 and large ones, nil-status implementor, plain) under every wrapper chain of depth <= 3 over "
         "{%w, NewStreamError, ConnectionError}; IsRestrictedControlPlaneCode on 0..40 and large codes. s_rpcerr: each of those terminals "
         "and a sample of chains at the picker (failfast and wait-for-ready), config-selector, transport-creds, call-creds and dialer "
-        "sites, plus six stream scenarios. An op is non-trivial unless its error spec is nil.")
+        "sites, plus six stream scenarios and the retry-exhausted-on-SendMsg scenario (maxAttempts 2..5). An op is non-trivial unless its error spec is nil.")
 
 CODES = list(range(0, 21)) + [99, 2**31 - 1, 2**31, 2**32 - 1]
 BASIC = ["eof", "ueof", "ctxd", "ctxc", "nosub", "nilst", "plain"]
@@ -103,19 +106,15 @@ def gen(rng, tier):
         keep = [s for s in sites if ":" not in s.split()[-1] and ":" not in s.split()[-2]]
         rest = [s for s in sites if s not in set(keep)]
         sites = keep + rng.sample(rest, min(len(rest), 150))
-    # the listed finding travels alone (the check reports the first violation of a case)
-    def listed(op):
-        f = op.split()
-        return f[0] == "cfgsel" and f[1].replace("nse:", "") == "eof"
-    for i, op in enumerate(s for s in sites if listed(s)):
-        yield Case("s_rpcerr", [op], "cfgsel-eof-%d" % i)
-    sites = [s for s in sites if not listed(s)]
     rng.shuffle(sites)
     chunk = 60
     for i in range(0, len(sites), chunk):
         yield Case("s_rpcerr", sites[i:i + chunk], "sites-%d" % (i // chunk))
     scen = ["clean", "srvstop", "cancel", "deadline", "srvplain"] + ["srvst.%d" % c for c in list(range(0, 18)) + [42, 99]]
     yield Case("s_rpcerr", ["stream " + s for s in scen], "streams")
+    # F31 (a6's side finding): attempt limit hit on the SendMsg path
+    for k in (2, 3, 4, 5):
+        yield Case("s_rpcerr", ["stream sendretry.%d" % k], "sendretry-%d" % k)
 
 
 UNIT = "op"
